@@ -927,6 +927,10 @@ func suiteOps(rn *runner, r *rng, tier string) {
 			sharedStringCase(rn, cr, "p0", "p")
 			continue
 		}
+		if i%25 == 11 {
+			elementsEditCase(rn, cr)
+			continue
+		}
 		cfg := defaultCfg(cr)
 		cfg.maxDepth = 1 + cr.intn(4)
 		cfg.maxMembers = 2 + cr.intn(8)
@@ -1012,4 +1016,63 @@ func suiteOps(rn *runner, r *rng, tier string) {
 		rn.addPrepared(c.tc)
 	}
 	rn.rep.Rule = "parse, 0-5 random in-place edits (Set*, DeleteElems on objects/arrays, SetNull on containers) at random value positions, then read back through every API family with expectations from an independent reference tree; distinct = (nd, set of edit kinds, size class)"
+}
+
+// elementsEditCase: Object.Parse, then edits through the elements' own iterators (also ones that change the type:
+// null ↔ bool, anything → null, number → int), then Elements.MarshalJSON and the document read again. The Elements
+// hold iterators, not values: what they marshal is the tape as it is now (C10), and the edit is visible to every
+// other reader (C13). The model keeps the element's recorded Type as it was, as the code does.
+func elementsEditCase(rn *runner, cr *rng) {
+	vals := []string{"null", "true", "false", "12", "-7", "1.5", "\"s\"", "[1,null]", "{\"x\":null}"}
+	k := 2 + cr.intn(6)
+	var parts []string
+	kinds := make([]string, k)
+	for j := 0; j < k; j++ {
+		v := vals[cr.intn(len(vals))]
+		kinds[j] = v
+		parts = append(parts, fmt.Sprintf("%q:%s", string(rune('a'+j)), v))
+	}
+	text := "{" + strings.Join(parts, ",") + "}"
+	c := &opsCase{r: cr, tc: &testCase{note: "ops", class: "ops/elements-edit"}, st: newStore()}
+	cp := "0"
+	if cr.chance(1, 2) {
+		cp = "1"
+	}
+	if out := c.emit(fmt.Sprintf("parse p 0 %s %s", cp, hx([]byte(text)))); !strings.HasPrefix(out, "ok") {
+		return
+	}
+	c.pj = c.st.pjs["p"]
+	nav, ok := navOps(c.pj, "t", "p", 1)
+	if !ok {
+		return
+	}
+	for _, op := range nav {
+		c.emit(op)
+	}
+	c.emit("object o t")
+	if out := c.emit("parseobj es o"); !strings.HasPrefix(out, "ok") {
+		return
+	}
+	for e := 0; e < 1+cr.intn(4); e++ {
+		j := cr.intn(k)
+		switch cr.intn(3) {
+		case 0:
+			c.emit(fmt.Sprintf("elemset es %d bool %d", j, cr.intn(2)))
+		case 1:
+			c.emit(fmt.Sprintf("elemset es %d null 0", j))
+		default:
+			c.emit(fmt.Sprintf("elemset es %d int %d", j, cr.intn(1000)-500))
+		}
+		if cr.chance(1, 2) {
+			c.emit("emarshal es")
+		}
+	}
+	em := c.emit("emarshal es")
+	c.emit("owalk p")
+	if em != "err" && em != "panic" {
+		// what the Elements marshal must be a document again (compared with the model's text and walk)
+		c.emit("parse em 0 1 " + em)
+		c.emit("owalk em")
+	}
+	rn.addPrepared(c.tc)
 }
